@@ -1,7 +1,241 @@
-(* C14 -- lemmas and proofs. *)
+(* C14 -- lemmas and proofs (part 1: attribute maps, hide_attrs, the registration split, invoke_exception_view). *)
 From Coq Require Import List NArith ZArith Bool Lia.
 Import ListNotations.
 Require Import Verif.Lib.Wire Verif.Gen.Facts_C03 Verif.Model.C03 Verif.Proofs.C03 Verif.Gen.Facts_C14 Verif.Model.C14.
 
+(* the regenerated constants of the anchored code are the ones the property speaks about *)
 Lemma facts_ok : code_params = spec_params.
 Proof. vm_compute. reflexivity. Qed.
+
+(* ------------------------------------------------------------------ *)
+(* attribute maps *)
+
+Lemma aget_aset_same k v m : aget k (aset k v m) = Some v.
+Proof.
+  unfold aget. induction m as [|[k' v'] r IH]; simpl.
+  - rewrite text_eqb_refl. reflexivity.
+  - destruct (text_eqb k k') eqn:E; simpl.
+    + rewrite text_eqb_refl. reflexivity.
+    + rewrite E. exact IH.
+Qed.
+
+Lemma aget_aset_other k k' v m : k <> k' -> aget k' (aset k v m) = aget k' m.
+Proof.
+  intros Hne. unfold aget. induction m as [|[k2 v2] r IH]; simpl.
+  - destruct (text_eqb k' k) eqn:E; [apply text_eqb_eq in E; congruence|reflexivity].
+  - destruct (text_eqb k k2) eqn:E; simpl.
+    + apply text_eqb_eq in E. subst k2.
+      destruct (text_eqb k' k) eqn:E2; [apply text_eqb_eq in E2; congruence|reflexivity].
+    + destruct (text_eqb k' k2); [reflexivity|exact IH].
+Qed.
+
+Lemma aget_adel_same k m : aget k (adel k m) = None.
+Proof.
+  unfold aget. induction m as [|[k' v'] r IH]; simpl; [reflexivity|].
+  destruct (text_eqb k k') eqn:E; simpl; [exact IH|]. rewrite E. exact IH.
+Qed.
+
+Lemma aget_adel_other k k' m : k <> k' -> aget k' (adel k m) = aget k' m.
+Proof.
+  intros Hne. unfold aget. induction m as [|[k2 v2] r IH]; simpl; [reflexivity|].
+  destruct (text_eqb k k2) eqn:E; simpl.
+  - apply text_eqb_eq in E. subst k2.
+    destruct (text_eqb k' k) eqn:E2; [apply text_eqb_eq in E2; congruence|exact IH].
+  - destruct (text_eqb k' k2); [reflexivity|exact IH].
+Qed.
+
+Lemma sassoc_sset_same k (v : option N) s : assoc k (sset k v s) = Some v.
+Proof.
+  induction s as [|[k' v'] r IH]; simpl.
+  - rewrite text_eqb_refl. reflexivity.
+  - destruct (text_eqb k k') eqn:E; simpl.
+    + rewrite text_eqb_refl. reflexivity.
+    + rewrite E. exact IH.
+Qed.
+
+Lemma sassoc_sset_other k k' (v : option N) s : k <> k' -> assoc k' (sset k v s) = assoc k' s.
+Proof.
+  intros Hne. induction s as [|[k2 v2] r IH]; simpl.
+  - destruct (text_eqb k' k) eqn:E; [apply text_eqb_eq in E; congruence|reflexivity].
+  - destruct (text_eqb k k2) eqn:E; simpl.
+    + apply text_eqb_eq in E. subst k2.
+      destruct (text_eqb k' k) eqn:E2; [apply text_eqb_eq in E2; congruence|reflexivity].
+    + destruct (text_eqb k' k2); [reflexivity|exact IH].
+Qed.
+
+(* ------------------------------------------------------------------ *)
+(* hide_attrs *)
+
+Lemma hide_pop_saved_notin names : forall m s k,
+  ~ In k names -> assoc k (snd (hide_pop names m s)) = assoc k s.
+Proof.
+  induction names as [|n r IH]; intros m s k Hk; simpl; [reflexivity|].
+  rewrite IH by (intro; apply Hk; right; assumption).
+  apply sassoc_sset_other. intro; subst; apply Hk; left; reflexivity.
+Qed.
+
+Lemma hide_pop_saved names : forall m s k,
+  NoDup names -> In k names -> assoc k (snd (hide_pop names m s)) = Some (aget k m).
+Proof.
+  induction names as [|n r IH]; intros m s k Hnd Hin; [destruct Hin|].
+  inversion Hnd as [|? ? Hn Hr]; subst. simpl.
+  destruct (text_eq_dec n k) as [->|Hne].
+  - rewrite hide_pop_saved_notin by assumption. apply sassoc_sset_same.
+  - destruct Hin as [->|Hin]; [congruence|].
+    rewrite IH by assumption. rewrite aget_adel_other by assumption. reflexivity.
+Qed.
+
+Lemma hide_pop_attrs_in names : forall m s k,
+  In k names -> aget k (fst (hide_pop names m s)) = None.
+Proof.
+  induction names as [|n r IH]; intros m s k Hin; [destruct Hin|]. simpl.
+  destruct (in_dec text_eq_dec k r) as [Hr|Hr]; [apply IH; assumption|].
+  destruct Hin as [->|Hin]; [|contradiction].
+  clear IH. revert m s. induction r as [|n2 r IH2]; intros m s; simpl.
+  - apply aget_adel_same.
+  - assert (Hn2 : n2 <> k) by (intro; subst; apply Hr; left; reflexivity).
+    assert (Hr2 : ~ In k r) by (intro; apply Hr; right; assumption).
+    specialize (IH2 Hr2 (adel n2 m) (sset n2 (aget n2 (adel k m)) s)).
+    (* adel commutes up to aget; go through a generalisation instead *)
+    clear IH2.
+    assert (G : forall names m s, ~ In k names -> aget k m = None -> aget k (fst (hide_pop names m s)) = None).
+    { clear. induction names as [|a r IH]; intros m s Hk Hm; simpl; [exact Hm|].
+      apply IH; [intro; apply Hk; right; assumption|].
+      rewrite aget_adel_other; [exact Hm|intro; subst; apply Hk; left; reflexivity]. }
+    apply G; [assumption|].
+    rewrite aget_adel_other by assumption. apply aget_adel_same.
+Qed.
+
+Lemma hide_pop_attrs_notin names : forall m s k,
+  ~ In k names -> aget k (fst (hide_pop names m s)) = aget k m.
+Proof.
+  induction names as [|n r IH]; intros m s k Hk; simpl; [reflexivity|].
+  rewrite IH by (intro; apply Hk; right; assumption).
+  apply aget_adel_other. intro; subst; apply Hk; left; reflexivity.
+Qed.
+
+Lemma hide_restore_notin names : forall s m k,
+  ~ In k names -> aget k (hide_restore names s m) = aget k m.
+Proof.
+  induction names as [|n r IH]; intros s m k Hk; simpl; [reflexivity|].
+  rewrite IH by (intro; apply Hk; right; assumption).
+  assert (Hne : n <> k) by (intro; subst; apply Hk; left; reflexivity).
+  destruct (assoc n s) as [[v|]|]; [apply aget_aset_other|apply aget_adel_other|apply aget_adel_other]; assumption.
+Qed.
+
+Lemma hide_restore_in names : forall s m k,
+  NoDup names -> In k names ->
+  aget k (hide_restore names s m) = match assoc k s with Some (Some v) => Some v | _ => None end.
+Proof.
+  induction names as [|n r IH]; intros s m k Hnd Hin; [destruct Hin|].
+  inversion Hnd as [|? ? Hn Hr]; subst. simpl.
+  destruct (text_eq_dec n k) as [->|Hne].
+  - rewrite hide_restore_notin by assumption.
+    destruct (assoc k s) as [[v|]|]; [apply aget_aset_same|apply aget_adel_same|apply aget_adel_same].
+  - destruct Hin as [->|Hin]; [congruence|]. apply IH; assumption.
+Qed.
+
+(* every named attribute has, after the with-block, the value it had before -- for every attribute map,
+   every list of names without repetitions and every body, whether it returns or raises *)
+Theorem hide_attrs_restores {A} (names : list text) (body : amap -> A * amap) (m : amap) k :
+  NoDup names -> In k names -> aget k (snd (hide_attrs names body m)) = aget k m.
+Proof.
+  intros Hnd Hin. unfold hide_attrs.
+  pose proof (hide_pop_saved names m [] k Hnd Hin) as Hs.
+  destruct (hide_pop names m []) as [m1 s]. destruct (body m1) as [a m2]. simpl in *.
+  rewrite hide_restore_in by assumption. rewrite Hs. destruct (aget k m); reflexivity.
+Qed.
+
+(* an attribute that is not named is whatever the body left *)
+Theorem hide_attrs_frame {A} (names : list text) (body : amap -> A * amap) (m : amap) k :
+  ~ In k names ->
+  aget k (snd (hide_attrs names body m)) = aget k (snd (body (fst (hide_pop names m [])))).
+Proof.
+  intros Hk. unfold hide_attrs.
+  destruct (hide_pop names m []) as [m1 s]. simpl. destruct (body m1) as [a m2]. simpl.
+  apply hide_restore_notin. assumption.
+Qed.
+
+(* inside the block the named attributes are absent *)
+Lemma hide_attrs_hidden names m k : In k names -> aget k (fst (hide_pop names m [])) = None.
+Proof. apply hide_pop_attrs_in. Qed.
+
+(* the full-strength statement (any list of names) is false of the code: a name listed twice is lost *)
+Theorem hide_attrs_restores_dup_refuted :
+  exists (names : list text) (m : amap) k,
+    In k names /\ ~ NoDup names /\
+    aget k (snd (hide_attrs names (fun a => (tt, a)) m)) <> aget k m.
+Proof.
+  exists [hn_exception; hn_exception], [(hn_exception, 7%N)], hn_exception.
+  split; [left; reflexivity|]. split.
+  - intro H. inversion H as [|? ? Hn _]. apply Hn. left. reflexivity.
+  - vm_compute. discriminate.
+Qed.
+
+Example hide_attrs_restores_nonvacuous :
+  NoDup (p_hidden spec_params) /\
+  aget hn_exception (snd (hide_attrs (p_hidden spec_params)
+                            (fun a => (tt, aset hn_exception 9%N (aset hn_response 5%N a)))
+                            [(hn_exception, 7%N)])) = Some 7%N /\
+  aget hn_response (snd (hide_attrs (p_hidden spec_params)
+                            (fun a => (tt, aset hn_exception 9%N (aset hn_response 5%N a)))
+                            [(hn_exception, 7%N)])) = None.
+Proof.
+  split; [|split; vm_compute; reflexivity].
+  repeat constructor; simpl; intuition discriminate.
+Qed.
+
+(* ------------------------------------------------------------------ *)
+(* exception_only: which classifiers a declaration registers under *)
+
+Definition under_cls (cls : N) (l : list reg) : bool := existsb (fun v => N.eqb (s_cls (r_slot v)) cls) l.
+
+Lemma reg_of_args_cls names cls a v : reg_of_args names cls a = Some v -> s_cls (r_slot v) = cls.
+Proof.
+  unfold reg_of_args. destruct (make names (args_kw a)); simpl; [|discriminate].
+  intros H. inversion H. reflexivity.
+Qed.
+
+Lemma under_cls_opt names cls cls' a :
+  under_cls cls' (opt_list (reg_of_args names cls a)) =
+  match reg_of_args names cls a with Some _ => N.eqb cls cls' | None => false end.
+Proof.
+  unfold under_cls. destruct (reg_of_args names cls a) eqn:E; simpl; [|reflexivity].
+  rewrite (reg_of_args_cls _ _ _ _ E). rewrite orb_false_r. reflexivity.
+Qed.
+
+Lemma under_cls_app cls a b : under_cls cls (a ++ b) = under_cls cls a || under_cls cls b.
+Proof. unfold under_cls. apply existsb_app. Qed.
+
+(* a view whose predicates are accepted (make succeeds) is registered under the ordinary classifier iff it is
+   not exception_only, and under the exception classifier iff its context is an exception type; an
+   exception_only view on a non-exception context registers nothing (ConfigurationError) *)
+Theorem exception_only_split P names nm d c xonly isexc :
+  effective_ctx P nm d = (c, xonly, isexc) ->
+  make names (args_kw (with_ctx (d_args d) c)) <> None ->
+  let regs := regs_of_decl P names nm d in
+  under_cls view_classifier regs = negb xonly
+  /\ under_cls exc_classifier_id regs = isexc && negb (xonly && negb isexc)
+  /\ (xonly = true -> isexc = false -> regs = []).
+Proof.
+  intros He Hm regs. subst regs. unfold regs_of_decl. rewrite He.
+  assert (H0 : forall cls, reg_of_args names cls (with_ctx (d_args d) c) <> None).
+  { intros cls. unfold reg_of_args. destruct (make names (args_kw (with_ctx (d_args d) c))); [discriminate|congruence]. }
+  destruct xonly, isexc; simpl; rewrite ?app_nil_r, ?under_cls_app, ?under_cls_opt;
+    repeat match goal with
+    | |- context [reg_of_args names ?cls ?a] =>
+        let E := fresh in destruct (reg_of_args names cls a) eqn:E; [|exfalso; exact (H0 cls E)]
+    end; simpl; repeat split; try reflexivity; try discriminate; intros; try discriminate.
+Qed.
+
+Example exception_only_split_nonvacuous :
+  let nm := [(cn_Interface, 0%N); (cn_Exception, 5%N)] in
+  let a := mkArgs 1%N 0%N [] [] None false 3%N in
+  map (fun v => s_cls (r_slot v)) (regs_of_decl spec_params pred_names nm (mkDecl DView (Some 7%N) false true a 0%N no_body))
+    = [0%N; 1%N]
+  /\ map (fun v => s_cls (r_slot v)) (regs_of_decl spec_params pred_names nm (mkDecl DView (Some 7%N) true true a 0%N no_body))
+    = [1%N]
+  /\ map (fun v => s_cls (r_slot v)) (regs_of_decl spec_params pred_names nm (mkDecl DExcView None false false a 0%N no_body))
+    = [1%N]
+  /\ regs_of_decl spec_params pred_names nm (mkDecl DView (Some 7%N) true false a 0%N no_body) = [].
+Proof. vm_compute. repeat split; reflexivity. Qed.
